@@ -115,6 +115,26 @@ def _divmod_form(info, lid, is_sat_count, is_sig_count):
     return None
 
 
+def derived_consumers(eng):
+    """[(type code, value leaf, effect)]: what the single-field routine stores for a field of a derived-label type (PRN / CELLPRN / CELLSIG), found
+    by specialising the routine on each such field key - however the routine tests the type (comparisons, membership in a set of types, a table)."""
+    T = eng.tables
+    tc = T.type_consts
+    want = (tc["PRN"], tc["CELPRN"], tc["CELSIG"])
+    out = []
+    sf = eng.repo.func(eng.single_field_routine)
+    for key, desc in T.fields.items():
+        if desc[0] not in want:
+            continue
+        ses = SH.specialise_single(eng, key)
+        for e in ses.effects:
+            if e.kind == "call" and e.term[2] == ("builtin", "setattr") and len(e.term[3]) == 3 and e.term[3][0] == ("self",):
+                for g, leaf in leaves(e.term[3][2]):
+                    # under specialisation the type tests have folded away; any remaining gate is about something else
+                    out.append((desc[0], leaf, e))
+    return out, sf
+
+
 def map_forms(eng):
     """Normal forms (sa/seqalg.py) of the maps the map builder leaves in the instance fields the derived-label consumers read:
     dict(sa, env, sat=(obj, form), cell=(obj, form), fields) or None when the builder is outside the algebra's fragment."""
@@ -127,16 +147,11 @@ def map_forms(eng):
         T = eng.tables
         mb = eng.repo.func(eng.map_builder)
         fields = {}
-        sf0 = eng.repo.func(eng.single_field_routine)
         tc0 = T.type_consts
-        for e in eng.symeval(sf0.qualname).effects:
-            if e.kind == "call" and e.term[2] == ("builtin", "setattr"):
-                for g, leaf in leaves(e.term[3][2]):
-                    for c, pol in g:
-                        if pol and c[0] == "cmp" and c[1] == "==" and is_const(c[3]) and c[3][1] in (tc0["PRN"], tc0["CELPRN"], tc0["CELSIG"]):
-                            base = leaf[1] if (c[3][1] != tc0["PRN"] and leaf[0] == "idx" and is_const(leaf[2])) else leaf
-                            if base[0] == "idx" and base[1][0] == "field":
-                                fields.setdefault("sat" if c[3][1] == tc0["PRN"] else "cell", base[1][1])
+        for typ_, leaf, _e in derived_consumers(eng)[0]:
+            base = leaf[1] if (typ_ != tc0["PRN"] and leaf[0] == "idx" and is_const(leaf[2])) else leaf
+            if base[0] == "idx" and base[1][0] == "field":
+                fields.setdefault("sat" if typ_ == tc0["PRN"] else "cell", base[1][1])
         sa = SeqAlg(eng, mb)
         env = sa.run()
         objs = {}
@@ -346,16 +361,11 @@ def run(eng, ctx, layout_only=False):
     sat_f0, sig_f0, cell_f0 = dc0.get(T.const.get("NSAT", "NSat")), dc0.get(T.const.get("NSIG", "NSig")), dc0.get(T.const.get("NCELL", "NCell"))
     # fields of the instance the derived-label consumers read (the maps the builder must leave behind)
     consumer_fields = {}
-    sf0 = eng.repo.func(eng.single_field_routine)
     tc0 = T.type_consts
-    for e in eng.symeval(sf0.qualname).effects:
-        if e.kind == "call" and e.term[2] == ("builtin", "setattr"):
-            for g, leaf in leaves(e.term[3][2]):
-                for c, pol in g:
-                    if pol and c[0] == "cmp" and c[1] == "==" and is_const(c[3]) and c[3][1] in (tc0["PRN"], tc0["CELPRN"], tc0["CELSIG"]):
-                        base = leaf[1] if (c[3][1] != tc0["PRN"] and leaf[0] == "idx" and is_const(leaf[2])) else leaf
-                        if base[0] == "idx" and base[1][0] == "field":
-                            consumer_fields.setdefault("sat" if c[3][1] == tc0["PRN"] else "cell", base[1][1])
+    for typ_, leaf, _e in derived_consumers(eng)[0]:
+        base = leaf[1] if (typ_ != tc0["PRN"] and leaf[0] == "idx" and is_const(leaf[2])) else leaf
+        if base[0] == "idx" and base[1][0] == "field":
+            consumer_fields.setdefault("sat" if typ_ == tc0["PRN"] else "cell", base[1][1])
     # ------------------------------------------------------------ D2 scan schema
     ctx.rule("C09.D2", "mask scans are MSB-first: tested bit position = W - e(counter) covers 0..W-1, the label key is W - position, "
                        "ordinals are 1-based keys / 0-based list positions consistent with their consumers; cells are scanned satellite-major "
@@ -367,6 +377,31 @@ def run(eng, ctx, layout_only=False):
         # a scan whose loops have a shape the loop-shape rules below do not follow is still decided when its normal form was (above)
         if not decided_by_algebra:
             ctx.undecided(*a, **kw)
+
+    # When the normal forms were obtained and compared, they are the verdict on D2: the loop-shape rules below (written for particular ways of
+    # spelling the scans) then only collect what D3 / D4 need and their own D2 findings are not reported.
+    real_ctx = ctx
+    if decided_by_algebra:
+        class _Quiet:
+            def __init__(self, inner):
+                self._inner = inner
+
+            def __getattr__(self, name):
+                return getattr(self._inner, name)
+
+            def check(self, cond, rid, *a, **kw):
+                if rid != "C09.D2":
+                    return self._inner.check(cond, rid, *a, **kw)
+
+            def bad(self, rid, *a, **kw):
+                if rid != "C09.D2":
+                    return self._inner.bad(rid, *a, **kw)
+
+            def ok(self, rid, *a, **kw):
+                if rid != "C09.D2":
+                    return self._inner.ok(rid, *a, **kw)
+
+        ctx = _Quiet(real_ctx)
 
     se = eng.symeval(mb.qualname)
     loops = se.loop_info
@@ -660,6 +695,7 @@ def run(eng, ctx, layout_only=False):
         undecided("C09.D2", mb.qualname, "cell scan", detail="the satellite / signal counts the cell scan depends on were not identified", **eng.loc(mb, mb.node))
     elif cell_field not in inverted:
         undecided("C09.D2", mb.qualname, f"scan of {cell_field}", detail="no loop testing one bit of the cell mask per iteration and recording a label under it was recognised", **eng.loc(mb, mb.node))
+    ctx = real_ctx
     if layout_only:
         return
     # consumers in the single-field routine: 1-based index from the group loop
@@ -670,13 +706,12 @@ def run(eng, ctx, layout_only=False):
     ncons = 0
     for v in (ssf.final.env.values() if ssf.final else []):
         pass
-    for e in ssf.effects:
-        if e.kind == "call" and e.term[2] == ("builtin", "setattr"):
-            for g, leaf in leaves(e.term[3][2]):
-                for c, pol in g:
-                    if pol and c[0] == "cmp" and c[1] == "==" and is_const(c[3]) and c[3][1] in (tc["PRN"], tc["CELPRN"], tc["CELSIG"]):
+    for typ, leaf, e in derived_consumers(eng)[0]:
+        if True:
+            if True:
+                if True:
+                    if True:
                         ncons += 1
-                        typ = c[3][1]
                         base = leaf
                         comp = None
                         if typ != tc["PRN"] and leaf[0] == "idx" and is_const(leaf[2]):
